@@ -142,11 +142,28 @@ def expected_rows(g, n):
     return rows
 
 
-def status_case(ctx, dirty_params):
+# records that have ended once and change again: time-outs with restarts, a hardware failure with a
+# resubmission, and a join whose one input fails and whose other input is cancelled a poll later (the join
+# is marked FAILED, then CANCELLED) - and the same the other way round
+DIRECTED = [({"n": 3, "edges": [[0, 1], [0, 2], [1, 3]], "sched": [1, 1, 1], "restart": [1, 1, 0], "rlimit": 3,
+              "throttle": 0, "attempts": 1, "subs": []},
+             [[], [[1, "TIMEDOUT"], [2, "RUNNING"]], [[1, "RUNNING"], [2, "HWFAILURE"]], [[1, "TIMEDOUT"], [2, "RUNNING"]],
+              [[1, "PENDING"], [2, "TIMEDOUT"]], [[1, "RUNNING"], [2, "RUNNING"]], [[1, "FINISHED"], [2, "FINISHED"]],
+              [[3, "RUNNING"]], [[3, "FINISHED"]]])]
+for _first, _second in (("FAILED", "CANCELLED"), ("CANCELLED", "FAILED"), ("UNKNOWN", "CANCELLED")):
+    DIRECTED.append(({"n": 5, "edges": [[0, 1], [0, 2], [0, 3], [1, 4], [2, 4], [4, 5]], "sched": [1] * 5,
+                      "restart": [0] * 5, "rlimit": 1, "throttle": 0, "attempts": 1, "subs": []},
+                     [[], [[1, "RUNNING"], [2, "RUNNING"], [3, "RUNNING"]], [[1, _first], [2, "RUNNING"]],
+                      [[2, _second], [3, "RUNNING"]], [[3, "FINISHED"]], [[3, "FINISHED"]]]))
+
+
+def status_case(ctx, dirty_params, directed=None):
     from maestrowf.conductor import Conductor
     from maestrowf import status_renderer_factory
+    import common
+    common.next_logging()
     rng = ctx.rng
-    scn = E.gen_scenario(rng, maxn=6)
+    scn = E.gen_scenario(rng, maxn=6) if directed is None else dict(directed[0])
     scn["dry"] = 0
     root = E.fresh_root(ctx)
     S.install()
@@ -164,7 +181,12 @@ def status_case(ctx, dirty_params):
     fair_from = rng.randint(2, 10)
     for k in range(30):
         inflight = sorted(S.sidx(x) for x in g.in_progress)
-        op = E.gen_op(rng, inflight, k >= fair_from, scn, None)
+        if directed is not None:
+            if k >= len(directed[1]):
+                break
+            op = {"op": "poll", "code": "OK", "reports": [r for r in directed[1][k] if r[0] in inflight]}
+        else:
+            op = E.gen_op(rng, inflight, k >= fair_from, scn, None)
         if op["op"] == "cancel":
             S.do_cancel(g)
             continue
@@ -474,6 +496,8 @@ def run(ctx, escalated=False):
         cases.append(roundtrip_case(ctx, ctx.rng.random() < 0.25))
     for _ in range(n_st):
         cases.append(status_case(ctx, ctx.rng.random() < 0.15))
+    for d_ in DIRECTED:
+        cases.append(status_case(ctx, False, directed=d_))
     import condsim
     import shutil
     for k in range(40 if quick else 1000):
